@@ -32,14 +32,14 @@ Proof.
 Qed.
 
 Section Assembly.
-  Variables (R : registry) (L : lattice) (ms : list cmeth).
+  Variables (R : registry) (L : lattice) (ms : list cmeth) (stale : list word).
   Hypothesis Hwf : wf_registry R.
   Hypothesis Hlo : lattice_ok R L.
   Hypothesis Hms : Forall (meth_wf L) ms.
   Hypothesis Hmok : forall i m, nth_error (r_methods R) i = Some m -> exists cm, nth_error ms i = Some cm /\ meth_ok R L m cm.
 
   Let st := assign_slots L ms.
-  Let C := install L ms st.
+  Let C := install_with stale L ms st.
   Let tables := map (build_method L) ms.
   Let vt := write_vtbls L ms st.
 
@@ -58,7 +58,7 @@ Section Assembly.
     (exists junk, o_image C = (img1 ++ img2) ++ junk) /\
     o_ss C = map (fun '(mi, (m, t)) => slots_strides_of st mi m t) (combine (seq 0 (length ms)) (combine ms tables)).
   Proof.
-    unfold C, install. fold tables. fold vt.
+    unfold C, install_with. fold tables. fold vt.
     unfold offs, img1, vps, img2, vts, offs, img1.
     destruct (place_tables 0 0 (combine ms tables)) as [o i1] eqn:E1. cbn [fst snd].
     destruct (place_vtbls (length i1) (s_first st) (map (map (entry_word ms tables o)) vt)) as [v i2] eqn:E2. cbn [fst snd].
